@@ -47,6 +47,11 @@ structure Frame where
   curP : Param := (0, [])
   restP : List Param := []
   skip : Nat := 0
+  /-- osc(): string locals (UTF-8 bytes; local 0 is the parameter `data`), events posted, the inputs of the call -/
+  strs : Nat → List Nat := fun _ => []
+  events : Nat := 0
+  info : OscInfo := {}
+  hostEmpty : Bool := false
 
 def Frame.get (s : Frame) : Loc → Int
   | .curRow => s.e.cur.row
@@ -137,6 +142,10 @@ def evalCond (pm : List Param) (s : Frame) (lvs : List Int) : Cond → Bool
   | .not a => !evalCond pm s lvs a
   | .mode f => s.e.mode.get f
   | .lastCol => s.e.lastCol
+  | .strEq v lit => decide (s.strs v = lit)
+  | .osc8 => s.e.osc8
+  | .vxNil => !s.e.hasVx
+  | .hostEmpty => s.hostEmpty
 
 /-- inclusive upper bound of an ascending loop -/
 def evalBnd (pm : List Param) (s : Frame) (lvs : List Int) : Bnd → Int
@@ -250,6 +259,13 @@ def evalG (pm : List Param) (s : Frame) : Stmt → List Int → Grid → M (Grid
   | .setMode _ _, _, g => .ok (g, .norm)     -- excluded by `wf`
   | .forParams _, _, g => .ok (g, .norm)     -- excluded by `wf`
   | .reply, _, g => .ok (g, .norm)           -- excluded by `wf`
+  | .cut _ _ _ _, _, g => .ok (g, .norm)     -- excluded by `wf`
+  | .post, _, g => .ok (g, .norm)            -- excluded by `wf`
+  | .setLink _, _, g => .ok (g, .norm)       -- excluded by `wf`
+  | .setLinkParams _, _, g => .ok (g, .norm) -- excluded by `wf`
+  | .hostQuery, _, g => .ok (g, .norm)       -- excluded by `wf`
+  | .b64Decode _, _, g => .ok (g, .norm)     -- excluded by `wf`
+  | .clipPush, _, g => .ok (g, .norm)        -- excluded by `wf`
   | .pmDefault0, _, g => .ok (g, .norm)      -- excluded by `wf`
   | .forSgr _, _, g => .ok (g, .norm)        -- excluded by `wf`
   | .skipParams _, _, g => .ok (g, .norm)    -- excluded by `wf`
@@ -421,6 +437,20 @@ def evalS (pm : List Param) : Stmt → Frame → M (Frame × Sig)
   | .logErr, s => .ok (s, .norm)
   | .iteP c t f, s =>
     if condOkS s c then (if evalCond pm s [] c then evalS pm t s else evalS pm f s) else .error .oob
+  | .cut a b f src, s =>
+    let r := cutSemi (s.strs src)
+    let strs1 : Nat → List Nat := fun k => if some k = b then r.2.1 else if some k = a then r.1 else s.strs k
+    let s1 : Frame := { s with strs := strs1 }
+    .ok ((match f with
+      | some k => s1.set (.var k) (if r.2.2 then 1 else 0)
+      | none => s1), .norm)
+  | .post, s => .ok ({ s with events := s.events + 1 }, .norm)
+  | .setLink v, s => .ok ({ s with e := { s.e with cur := { s.e.cur with st := { s.e.cur.st with link := s.strs v } } } }, .norm)
+  | .setLinkParams v, s =>
+    .ok ({ s with e := { s.e with cur := { s.e.cur with st := { s.e.cur.st with linkParams := s.strs v } } } }, .norm)
+  | .hostQuery, s => .ok (s, .norm)
+  | .b64Decode k, s => .ok (s.set (.var k) (if s.info.b64ok then 0 else 1), .norm)
+  | .clipPush, s => if s.e.hasVx then .ok (s, .norm) else .error .oob
   | .forParams body, s => do
     let s' ← paramLoop (fun p s => do
       let r ← evalS pm body { s with param := p }
@@ -487,6 +517,13 @@ def initFrame (e : Emu) (args : List Int) : Frame := { e := e, vars := fun k => 
 def evalPrint (b : Body) (g : G) (w : Int) (e : Emu) : M Emu := do
   let r ← evalS [] b.stmt { e := e, vars := fun k => [w].getD k 0, g := g }
   .ok r.1.e
+
+/-- osc(data): the payload (string local 0), the base64 verdict and the host's answer are inputs; the result is the
+    state and the number of events posted -/
+def evalOsc (b : Body) (data : List Nat) (info : OscInfo) (hostEmpty : Bool) (e : Emu) : M (Emu × Nat) := do
+  let r ← evalS [] b.stmt { e := e, vars := fun _ => 0, strs := fun k => if k = 0 then data else [], info := info,
+                            hostEmpty := hostEmpty }
+  .ok (r.1.e, r.1.events)
 
 /-- Run a translated body: `args` are the int parameters (`ps`, `n`), `pm` the parameter list of
     the functions that take `[][]int`. -/
